@@ -14,7 +14,7 @@ PREFIXES = ["C04.", "Any.Crash"]
 
 def run(chk):
     cerlib.run_config(chk, "C04", PREFIXES)
-    # cerlib.run_config(chk, "C04client", PREFIXES)
+    cerlib.run_config(chk, "C04client", PREFIXES)
     cerlib.finish_cov(chk,
                       "every element of the C04 product (2304 authenticator-level runs; plus the client mapping userVerification -> uv, up = true) "
                       "is one behaviour; non-trivial = the run reaches a prompt or a store call",
